@@ -16,14 +16,15 @@ GROUPS = {
 def configs(R):
     quick = R.tier == "quick"
     cs = [("all", ALL), ("strong", GROUPS["strong"]), ("only-sha512crypt", ["sha512crypt"]), ("all-but-yescrypt", [m for m in ALL if m != "yescrypt"]),
-          ("scrypt-without-yescrypt", ["scrypt", "sha256crypt"]), ("bigcrypt-without-descrypt", ["bigcrypt", "md5crypt"])]
+          ("scrypt-without-yescrypt", ["scrypt", "sha256crypt"]), ("bigcrypt-without-descrypt", ["bigcrypt", "md5crypt"]),
+          ("yescrypt-without-scrypt", ["yescrypt", "gost_yescrypt", "sha512crypt"])]
     if not quick:
         cs += [("only-" + m, [m]) for m in ALL] + [("all-but-" + m, [x for x in ALL if x != m]) for m in ALL]
         cs += [(k, v) for k, v in GROUPS.items()]
         for i in range(32):
             sub = [m for m in ALL if R.rng.random() < 0.5]
             if sub: cs.append(("random%d" % i, sub))
-        cs += [("yescrypt-without-scrypt", ["yescrypt"]), ("gost-only", ["gost_yescrypt"]), ("descrypt-without-bigcrypt", ["descrypt"])]
+        cs += [("yescrypt-only", ["yescrypt"]), ("gost-only", ["gost_yescrypt"]), ("descrypt-without-bigcrypt", ["descrypt"])]
     return cs
 
 def corpus(R):
@@ -36,6 +37,9 @@ def corpus(R):
         rb = bytes(R.rng.randrange(256) for _ in range(32))
         ops.append("G rn %s 0 %s 32 192" % (hx(pfx), hx(rb)))
         ops.append("G rn %s 0 %s 32 14" % (hx(pfx), hx(rb)))
+    # the modes of the shared yescrypt KDF that another method also uses (flavor 0 = classic scrypt, 1 = WORM), reached through $y$ / $gy$
+    for st in (b"$y$.75$abcd", b"$y$/65$abcd", b"$gy$.75$abcd", b"$gy$/65$abcd", b"$y$j75./$abcd", b"$7$66..../....abcd$"):
+        ops.append(CS.crypt_op("rn", 0, b"pw", st)); ops.append("K " + hx(st))
     ops += [CS.crypt_op("rn", 0, b"longphrase-over-8", b"ab"), CS.crypt_op("rn", 0, b"longphrase-over-8", b"ab............"), CS.crypt_op("rn", 0, b"short", b"ab............"),
             "K 6162", "K 6162" + "2e" * 12, "P", "G rn - 0 %s 32 192" % hx(bytes(32)), "G st - 0 %s 32 0" % hx(bytes(32)), "G rn . 0 0101 2 192", "G rn . 0 0101 2 14"]
     return ops
